@@ -16,7 +16,8 @@ from props import _cfg
 ID = 'C06'
 LEAN_MODULES = ['Proofs.C06']
 REQUIRED = ['C06.resolve_idem', 'C06.defaults_agree', 'C06.stage_opts_effective', 'C06.route_independent',
-            'C06.every_stage_reached', 'C06.legacy_mask_dropped_envelope_opts', 'C06.legacy_noise_sift_dropped_options']
+            'C06.every_stage_reached', 'C06.legacy_mask_dropped_envelope_opts', 'C06.legacy_noise_sift_dropped_options',
+            'C06.emit_total', 'C06.emit_route_missing', 'C06.emit_ok_wellformed']
 TRUSTED = ['only stage calls inside the chain get_next_imf -> interp_envelope -> get_padded_extrema are observed (the wrappers track nesting); envelopes computed by frequency_transform for the if mask frequency are not sift stages',
            'the three stage functions get_next_imf / interp_envelope / get_padded_extrema are observed by wrapping the public '
            'module attributes from outside (emd.sift.<name> = wrapper, before any pool forks; workers inherit); each wrapper '
@@ -30,7 +31,10 @@ TRUSTED = ['only stage calls inside the chain get_next_imf -> interp_envelope ->
            'for the envelope, scipy.interpolate splrep/splev/pchip']
 ASSUMPTIONS = ['how often a stage is called depends on the data, which records occur does not: the set of distinct records per '
                'stage is compared (validated: equality of sets on every case)',
-               'option dictionaries are dicts or None; the user does not alias one dict object under two options']
+               'option dictionaries are dicts or None; the user does not alias one dict object under two options',
+               'mask_sift_second_layer forwards a copy of sift_args to mask_sift after setting max_imfs (when absent) and mask_freqs '
+               '(always: an array slice, so get_mask_freqs is never called); it takes no sift function, so of the configuration routes '
+               'only the unpacked configuration exists (model: Route.getFunc -> TypeError, compared on every case)']
 RULE = ('grid: variant {sift, ensemble_sift, complete_ensemble_sift, mask_sift (zc / if / float / explicit frequencies), '
         'get_next_imf_mask, get_mask_freqs, get_next_imf, sift_second_layer(sift | mask_sift), mask_sift_second_layer} x imf options {sd threshold, '
         'rilling thresholds, fixed iterations, step size, energy threshold} x envelope options {splrep, pchip, mono_pchip} x '
